@@ -52,6 +52,12 @@ def ops_root(ops, j):
     return ops[j]
 
 
+def ids_ok(case):
+    """No delivered validated operation carries a hash field different from its header hash."""
+    r = resolve(case["ops"])
+    return all((not r[i]["valid"]) or r[i]["id"] == r[i]["hh"] for i in set(case["ds"]))
+
+
 def wf(case):
     """The theorems' hypothesis wf_history on the delivered ops (python mirror, used for statistics)."""
     r = resolve(case["ops"])
